@@ -396,7 +396,7 @@ func (t *TerminalParamDetails) encode() []byte {
 }
 
 func (p ParamContent[T]) encode(appendFunc func(b []byte, v T) []byte) []byte {
-	if p.Len == 0 {
+	if p.Len == 0 && p.ID == 0 { // 没有设置的参数 (长度为0的参数 如空字符串 也是需要编码的)
 		return nil
 	}
 	tmp := make([]byte, 5, 9)
